@@ -4,7 +4,7 @@
 # (2) whole mls-rs lib + codec + core suites pass with the change (except known-failing tests);
 # (3) change reverted: demo PASSES.   Writes /tmp/mut_<id>_out/confirm.log
 ID="$1"; shift
-WT=/tmp/mut_$ID; OUT=/tmp/mut_${ID}_out
+P=${MUT_PREFIX:-mut_}; WT=/tmp/${P}$ID; OUT=/tmp/${P}${ID}_out
 cd "$WT" || exit 3
 export CARGO_TARGET_DIR=$WT/target
 {
